@@ -159,7 +159,14 @@ def render(case: t.Any) -> t.Any:
     return {'value': short(VALUES[vi][1], 60), 'kind': VALUES[vi][0], 'target': TARGETS[ti][0], 'context': CONTEXTS[ci]}
 
 
-def check(case: t.Any, ctx: Ctx) -> None:
+def stock_handlers() -> t.Dict[type, t.Any]:
+    """`custom={int: ..., float: ..., str: ...}` holding the library's own converters for exactly those types: nothing is
+    allowed to change under them, and in particular the entry for int serves int targets only, not bool ones."""
+    from pane.convert import make_converter
+    return {int: make_converter(int), float: make_converter(float), str: make_converter(str)}
+
+
+def check(case: t.Any, ctx: Ctx, custom: t.Any = None) -> None:
     import pane
     (vi, ti, ci) = case
     (vkind, v) = VALUES[vi]
@@ -183,8 +190,8 @@ def check(case: t.Any, ctx: Ctx) -> None:
         base = nd.pytype().make_unchecked(pad=5, f=None, tail='')
         (k, got) = outcome(lambda: base.__replace__(f=v, pad=0, tail='s'))
     else:
-        (k, got) = outcome(lambda: pane.from_data(wv, nd.pytype()))
-    cell = f"{vkind} value {short(v, 40)} -> {tname} [{cname}]"
+        (k, got) = outcome(lambda: pane.from_data(wv, nd.pytype(), custom=custom))
+    cell = f"{vkind} value {short(v, 40)} -> {tname} [{cname}]" + (' under custom={int:, float:, str: stock converters}' if custom is not None else '')
     if k == 'exc':
         ctx.fail('strict-kinds', f"exception:{type(got).__name__}", f"{cell}: raised {type(got).__name__}: {str(got)[:200]}")
         return
@@ -212,6 +219,21 @@ def check(case: t.Any, ctx: Ctx) -> None:
                 ctx.fail('table-accepts', f"{vkind}->{tname}", f"{cell}: returned {short(got, 80)}: {d}")
     elif k == 'ok':
         ctx.fail('table-rejects', f"{vkind}->{tname}", f"{cell}: accepted as {short(got, 80)} but the value is not a member ({r.why})")
+
+
+HANDLER_CONTEXTS = [CONTEXTS.index(c) for c in ('top', 'list-element', 'mapping-value', 'union-never', 'dataclass-by-name')]
+
+
+def handler_cases(shard: int, nshards: int) -> t.Iterator[t.Any]:
+    i = 0
+    for (vi, ti, ci) in itertools.product(range(len(VALUES)), range(len(TARGETS)), HANDLER_CONTEXTS):
+        if i % nshards == shard:
+            yield [vi, ti, ci]
+        i += 1
+
+
+def check_handlers(case: t.Any, ctx: Ctx) -> None:
+    check(case, ctx, custom=stock_handlers())
 
 
 # ---- contexts composed two or three deep (Hypothesis) ------------------------------------------------------
@@ -312,6 +334,7 @@ def suites(tier: str) -> t.List[Suite]:
     big = tier == 'thorough'
     return [
         Suite('matrix', check, cases=cases, exhaustive=True, budget_s=600, render=render),
+        Suite('under-stock-handlers', check_handlers, cases=handler_cases, exhaustive=True, budget_s=300, render=render),
         Suite('equal-across-kinds', check_setdup, cases=setdup_cases, exhaustive=True, budget_s=30, render=lambda c: {'target': c[0], 'value': repr(SETDUP_VALUES[c[1]])}),
         Suite('deep', check_deep, strategy=deep_cases, examples=20000 if big else 1500, budget_s=300 if big else 20, render=render_deep),
     ]
